@@ -153,7 +153,13 @@ def _ops():
         c.set((b"user",), b"name", b"somebody")
         c.write_to_path()
 
+    def locked_idx(r, ids, t, b):
+        from dulwich.index import locked_index
+        with locked_index(os.path.join(r.path, "index")) as ix:
+            ix[b"h"] = IndexEntry(ctime=(3, 0), mtime=(3, 0), dev=1, ino=3, mode=0o100644, uid=0, gid=0, size=1, sha=b.id, flags=0, extended_flags=0)
+
     return {
+        "locked-index": (idx_write, locked_idx),
         "index-write-new": (None, idx_write),
         "index-rewrite": (idx_write, idx_rewrite),
         "config-write": (None, cfg_write),
